@@ -31,8 +31,9 @@ demo > $D/demo_with.log 2>&1; with=$?
 echo "demo: with change exit=$with, without exit=$without"
 base="skipped"
 if [ "${SKIP_BASELINE:-}" = "" ]; then
-  go test -mod=mod -vet=off -count=1 -timeout 25m -run 'TestFile_Name$|TestFileInfo' ./pkg/fs/ > $D/baseline.log 2>&1; base=$?
-  rm -rf /tmp/stfs-test-* 2>/dev/null
+  mkdir -p $WT/.tmp   # private temp dir: the test suite leaves /tmp/stfs-test-* behind and other runs share /tmp
+  TMPDIR=$WT/.tmp go test -mod=mod -vet=off -count=1 -timeout 25m -run 'TestFile_Name$|TestFileInfo|TestNewFileInfo' ./pkg/fs/ > $D/baseline.log 2>&1; base=$?
+  rm -rf $WT/.tmp
   echo "baseline subset exit=$base"
 fi
 res="{}"
